@@ -104,4 +104,15 @@ where
         self.factors.refactor().unwrap();
         self.factors.Dinv.is_finite()
     }
+
+    #[cfg(feature = "verif")]
+    fn verif_engine_snapshot(&self) -> crate::verif::EngineSnapshot<T> {
+        crate::verif::EngineSnapshot {
+            name: "qdldl".to_string(),
+            values: self.factors.verif_values(),
+            D: Some(self.factors.D.clone()),
+            perm: Some(self.factors.perm.clone()),
+            regularize_count: Some(self.factors.regularize_count()),
+        }
+    }
 }
